@@ -52,6 +52,7 @@ class EvalOrder:
     """P-model: records the order in which cell functions are evaluated."""
     installed = False
     seq = []
+    ids = []
 
     @classmethod
     def install(cls):
@@ -62,6 +63,7 @@ class EvalOrder:
 
         def __call__(self, *a, **kw):
             EvalOrder.seq.append(getattr(self, '__name__', '?'))
+            EvalOrder.ids.append(id(self))
             return orig(self, *a, **kw)
         CellWrapper.__call__ = __call__
         cls.installed = True
